@@ -12,7 +12,7 @@ from .common import Discard, run_alg, well_formed, dataset_tags, sweep
 
 ID = "C08"
 ENVS = ["absent"]
-RUNS = {"quick": 32000, "thorough": 320000}
+RUNS = {"quick": 64000, "thorough": 640000}
 RULE = ("case = (dataset, valid scheme, BioConsert configurations each with an RNG schedule); distinct = distinct case "
         "digest; non-trivial = a returned ranking over >= 3 elements had its whole single-move neighbourhood rescored")
 LEVEL_TEXT = ("seeded search over datasets x schemes x starting-algorithm configurations x pivot schedules; every "
